@@ -39,6 +39,15 @@ func checkC09(c *Ctx) {
 	}
 	// (h) exhaustiveness is judged against the case list stored with the union: no pass between the definition and
 	// the check may drop, add or move a case (ORDER restricted to case lists)
+	// (j) the case table exaustiveCheck reads is the entry of THIS union: the key of the global info table keeps the
+	// separator after the name even without type arguments (Opt_int_ for a plain union named Opt_int, Opt_int for the
+	// instance Opt<int>), so the two never share an entry
+	r.Rule("C09.j", "the key under which a union's (record's) info is stored and looked up is Name, a separator, then the printed type arguments joined by the separator — also when there are no arguments; uniToKey/rtToKey use nothing else", 3)
+	c.checkPins(f, "C09.j", []pin{
+		{"encodedKey", "nf", `frt.SInterP("%s_%s", p0, strings.Concat("_", slice.Map(FTypeToGo, p1)))`, "Name_ followed by the printed arguments joined with _ (the separator stays when there are none)"},
+		{"uniToKey", "nf", `encodedKey(p0.Name, p0.Targs)`, "a union is keyed by its name and type arguments"},
+		{"rtToKey", "nf", `encodedKey(p0.Name, p0.Targs)`, "a record is keyed by its name and type arguments"},
+	})
 	r.Rule("C09.h", "the case list of a union is handed on complete and in order by every pass that rebuilds it (element-wise image of the old list): the set exaustiveCheck requires is the set the definition declares", 1)
 	checkListOrderOf(c, "C09.h", f, func(key string) bool { return strings.HasSuffix(key, ".Cases") }, 1)
 	checkRelevantReviewedForms(c, f, "C09.z", "a union-match primitive (the exhaustiveness check, the rule constructors and parsers, case lookup, the match emitter)",
